@@ -28,26 +28,40 @@ INVS = ['TypeOK', 'CmdsInScope', 'CmdKindsOK', 'RecordsSound']
 LAYER = 'ftp-crawl'
 
 
+_REJ = {}
+
+
+def rej_by_char():
+    """Does the code under test take -R as one string (whose characters BackwardFilenameFilter then iterates over)
+    or as a comma separated list?  The model describes the code as it is (constant RejByChar)."""
+    if 'v' not in _REJ:
+        from wpull.application.options import AppArgumentParser
+        _REJ['v'] = isinstance(AppArgumentParser().parse_args(['ftp://h.test/', '-R', 'a,b']).reject, str)
+    return _REJ['v']
+
+
+def _consts(space, bug=False):
+    return ('CONSTANTS BugGlobDirLevel = %s\nSpace = "%s"\nRejByChar = %s\n'
+            % ('TRUE' if bug else 'FALSE', space, 'TRUE' if rej_by_char() else 'FALSE'))
+
+
 def design_cfg(space, bug=False, invs=INVS):
-    return ('SPECIFICATION Spec\nCONSTANTS BugGlobDirLevel = %s\nSpace = "%s"\n%sCHECK_DEADLOCK FALSE\n'
-            % ('TRUE' if bug else 'FALSE', space, ''.join('INVARIANT %s\n' % i for i in invs)))
+    return ('SPECIFICATION Spec\n%s%sCHECK_DEADLOCK FALSE\n'
+            % (_consts(space, bug), ''.join('INVARIANT %s\n' % i for i in invs)))
 
 
 def mon_cfg():
-    return ('SPECIFICATION MSpec\nCONSTANTS BugGlobDirLevel = FALSE\nSpace = "none"\nCONSTRAINT Record\n'
-            'POSTCONDITION Post\nCHECK_DEADLOCK FALSE\n')
+    return 'SPECIFICATION MSpec\n%sCONSTRAINT Record\nPOSTCONDITION Post\nCHECK_DEADLOCK FALSE\n' % _consts('none')
 
 
 def trace_cfg():
-    return ('SPECIFICATION TSpec\nCONSTANTS BugGlobDirLevel = FALSE\nSpace = "none"\nCONSTRAINT Record\n'
-            'POSTCONDITION Post\nCHECK_DEADLOCK FALSE\n')
+    return 'SPECIFICATION TSpec\n%sCONSTRAINT Record\nPOSTCONDITION Post\nCHECK_DEADLOCK FALSE\n' % _consts('none')
 
 
 # ------------------------------------------------------------------ scenarios
 def generate(space):
     """The scenario space of FtpScope.tla, printed by TLC (one JSON object per initial state)."""
-    cfg = ('SPECIFICATION GenSpec\nCONSTANTS BugGlobDirLevel = FALSE\nSpace = "%s"\nINVARIANT GenInv\n'
-           'CHECK_DEADLOCK FALSE\n' % space)
+    cfg = 'SPECIFICATION GenSpec\n%sINVARIANT GenInv\nCHECK_DEADLOCK FALSE\n' % _consts(space)
     res = tlc.run_tlc('FtpScope', cfg, workers=1, timeout=900)
     tlc.require_ok(res, 'FtpScope scenario generation')
     out = []
@@ -403,7 +417,7 @@ def run(chk):
         cat_recs = execute_all(cat, procs)
         t_cat = time.time() - t0
         gen, gres = f_gen.result()
-        n_gen = 110 if quick else 3400
+        n_gen = 110 if quick else 8000     # thorough: the whole generated space (5760 scenarios)
         sample = pick(gen, n_gen, rng)
         gen_recs = execute_all(sample, procs)
         t_gen = time.time() - t0
@@ -411,7 +425,8 @@ def run(chk):
         bug = f_bug.result()
         t_tlc = time.time() - t0
     name = 'FtpScope[%s]' % space
-    chk.design(name, design, constants={'Space': space, 'BugGlobDirLevel': False, 'scenarios': len(gen)},
+    chk.design(name, design, constants={'Space': space, 'BugGlobDirLevel': False, 'RejByChar': rej_by_char(),
+                                        'scenarios': len(gen)},
                expect_actions=ACTIONS)
     if bug['violated'] != 'invariant:CmdsInScope':
         raise tlc.TLCError('negative control: FtpScope.tla with BugGlobDirLevel = TRUE does not violate CmdsInScope (%s)'
